@@ -127,7 +127,7 @@ Qed.
 Definition wres_ok {A} (s : wstate) (nodes : A -> wstate -> Prop) (r : wres A) : Prop :=
   match r with
   | WOk a s' => wstep s s' /\ nodes a s' /\ (wrest s <> [] -> (length (wrest s') < length (wrest s))%nat)
-  | WErr t s' => wstep s s' /\ tok_in (hw s) (hw s') t
+  | WErr t _ s' => wstep s s' /\ tok_in (hw s) (hw s') t
   | WPanic _ => False
   | WFuel => False
   end.
@@ -178,7 +178,7 @@ Lemma pop_reference_loop_spec : forall fuel acc s lo,
   match pop_reference_loop fuel acc s with
   | WOk r s' => wstep s s' /\ r <> [] /\ nodes_ok lo (hw s') (ref_nodes r) /\ ref_end r = hw s' /\
                 (wrest s <> [] -> (length (wrest s') < length (wrest s))%nat)
-  | WErr t s' => wstep s s' /\ tok_in (hw s) (hw s') t
+  | WErr t _ s' => wstep s s' /\ tok_in (hw s) (hw s') t
   | WPanic _ => False
   | WFuel => False
   end.
@@ -186,7 +186,7 @@ Proof.
   induction fuel as [|f IH]; intros acc s lo Hok Hl Hlo Hacc Hst Hfirst Hf; [lia|].
   cbn [pop_reference_loop].
   destruct (pop_ident_spec s Hok Hl) as [Hspec Hsome].
-  destruct (pop_ident s) as [i s1|t s1|p|] eqn:E; cbn in Hspec.
+  destruct (pop_ident s) as [i s1|t wet s1|p|] eqn:E; cbn in Hspec.
   - destruct Hspec as (Hs1 & (Hin & Hend) & Hlen).
     assert (Hacc' : nodes_ok lo (hw s1) (ident_nodes (acc ++ [i]))).
     { unfold ident_nodes. rewrite map_app. apply nodes_app.
@@ -209,7 +209,7 @@ Proof.
       rewrite E2. cbn [wbind].
       specialize (IH (acc ++ [i]) s2 lo (ws_ok _ _ Hs2) (wstep_live _ _ Hs2)).
       assert (H12 : wstep s s2) by (eapply wstep_trans; eauto).
-      destruct (pop_reference_loop f (acc ++ [i]) s2) as [r s'|t s'|p|].
+      destruct (pop_reference_loop f (acc ++ [i]) s2) as [r s'|t wet s'|p|].
       * destruct IH as (A & B & C & D & F).
         -- eapply pos_le_trans; [exact Hlo|apply H12].
         -- eapply nodes_weaken; [apply pos_le_refl|apply Hs2|exact Hacc'].
@@ -257,7 +257,7 @@ Proof.
   assert (H : match pop_reference_loop (S (length (wrest s))) [] s with
               | WOk r s' => wstep s s' /\ r <> [] /\ nodes_ok (hw s) (hw s') (ref_nodes r) /\ ref_end r = hw s' /\
                             (wrest s <> [] -> (length (wrest s') < length (wrest s))%nat)
-              | WErr t s' => wstep s s' /\ tok_in (hw s) (hw s') t
+              | WErr t _ s' => wstep s s' /\ tok_in (hw s) (hw s') t
               | WPanic _ => False
               | WFuel => False
               end).
@@ -265,7 +265,7 @@ Proof.
     - apply pos_le_refl.
     - constructor.
     - intros Hne. exfalso. apply Hne. reflexivity. }
-  destruct (pop_reference_loop (S (length (wrest s))) [] s) as [r s'|t s'|p|]; cbn; auto.
+  destruct (pop_reference_loop (S (length (wrest s))) [] s) as [r s'|t wet s'|p|]; cbn; auto.
   destruct H as (A & B & C & D & F). split; [exact A|]. split; [|exact F]. split; [exact B|]. split; [exact C|exact D].
 Qed.
 
@@ -294,7 +294,7 @@ Proof.
   induction fuel2 as [|f2 IH2]; intros acc s2 H02 Hhw12 Hlen12 Hacc Hf2 Hff; [lia|].
   cbn [pop_elems].
   pose proof (Hpv s2 (ws_ok _ _ H02) (wstep_live _ _ H02) Hff) as Hv. unfold value_res in Hv.
-  destruct (pv s2) as [v s3|t s3|p|]; cbn [wbind]; cbn in Hv; auto.
+  destruct (pv s2) as [v s3|t wet s3|p|]; cbn [wbind]; cbn in Hv; auto.
   - destruct Hv as (H23 & Hn & Hl3).
     assert (H03 : wstep s s3) by (eapply wstep_trans; eauto).
     assert (Hacc' : nodes_ok (hw s) (hw s3) (flat_map value_nodes (acc ++ [v]))).
@@ -335,12 +335,12 @@ Proof.
   destruct (tt_eqb (next_type s) IDENT) eqn:E1.
   { apply tt_eqb_true in E1.
     pose proof (pop_reference_spec s Hok Hl (or_introl E1)) as H.
-    destruct (pop_reference s) as [r s1|t s1|p|]; cbn in *; auto.
+    destruct (pop_reference s) as [r s1|t wet s1|p|]; cbn in *; auto.
     destruct H as (A & (B & C & D) & F). split; [exact A|]. split; [|exact F].
-    inversion C as [|x l Hx Hl']; subst. constructor; [exact Hx|constructor]. }
+    inversion C as [|x l Hx Hl']; subst. constructor; [exact Hx|constructor; [exact Hx|constructor]]. }
   destruct (is_literal (next_type s)) eqn:E2.
   { destruct (pop_token_spec s Hok Hl) as (t & s1 & E & Hst & Hin & Hty & Hlen & Hte).
-    rewrite E. cbn. split; [exact Hst|]. split; [|exact Hlen]. constructor; [exact Hin|constructor]. }
+    rewrite E. cbn. split; [exact Hst|]. split; [|exact Hlen]. constructor; [exact Hin|constructor; [exact Hin|constructor]]. }
   destruct (tt_eqb (next_type s) LBRACK) eqn:E3; cycle 1.
   { destruct (pop_token_spec s Hok Hl) as (t & s1 & E & Hst & Hin & Hty & Hlen & Hte).
     rewrite E. cbn. split; assumption. }
@@ -370,20 +370,27 @@ Proof. intros. apply pop_value_spec; auto. Qed.
 Lemma peek_type_0 s : peek_type 0 s = next_type s.
 Proof. unfold peek_type, next_type. destruct (wrest s); reflexivity. Qed.
 
+Lemma toks_in_weaken lo hi hi' (l : list token) : pos_le hi hi' -> Forall (tok_in lo hi) l -> Forall (tok_in lo hi') l.
+Proof. intros H. apply Forall_impl. intros t. apply range_weaken; [apply pos_le_refl|exact H]. Qed.
+
 Lemma pop_description_loop_spec : forall fuel acc s lo,
   wst_ok s -> wlive s -> pos_le lo (hw s) ->
   (acc <> [] -> pos_le lo (ref_start acc) /\ valid_pos inp (ref_start acc) /\ pos_le (ref_start acc) (hw s)) ->
+  Forall (tok_in lo (hw s)) acc ->
   (length (wrest s) < fuel)%nat ->
   match pop_description_loop fuel acc s with
-  | WOk d s' => wstep s s' /\ range_ok lo (hw s') (dsstart d) (dsend d) /\
+  | WOk d s' => wstep s s' /\ range_ok lo (hw s') (dsstart d) (dsend d) /\ Forall (tok_in lo (hw s')) (dtoks d) /\
                 (wrest s <> [] -> (length (wrest s') < length (wrest s))%nat)
   | _ => False
   end.
 Proof.
-  induction fuel as [|f IH]; intros acc s lo Hok Hl Hlo Hst Hf; [lia|].
+  induction fuel as [|f IH]; intros acc s lo Hok Hl Hlo Hst Hacc Hf; [lia|].
   cbn [pop_description_loop].
   destruct (pop_token_spec s Hok Hl) as (t & s1 & E & Hs1 & Hin & Hty & Hlen & Hte).
   rewrite E. cbn [wbind].
+  assert (Hacc1 : Forall (tok_in lo (hw s1)) (acc ++ [t])).
+  { apply Forall_app. split; [eapply toks_in_weaken; [apply Hs1|exact Hacc]|].
+    constructor; [|constructor]. eapply range_weaken; [exact Hlo|apply pos_le_refl|exact Hin]. }
   assert (Hst' : pos_le lo (ref_start (acc ++ [t])) /\ valid_pos inp (ref_start (acc ++ [t])) /\
                  pos_le (ref_start (acc ++ [t])) (hw s1)).
   { rewrite ref_start_snoc. destruct acc as [|a0 acc0].
@@ -397,43 +404,49 @@ Proof.
     assert (Hr1 : wrest s1 <> []). { apply next_type_not_eof; [apply Hs1|]. rewrite Ep0. discriminate. }
     destruct (pop_token_spec s1 (ws_ok _ _ Hs1) (wstep_live _ _ Hs1)) as (t2 & s2 & E2 & Hs2 & Hin2 & Hty2 & Hlen2 & Hte2).
     rewrite E2. cbn [wbind]. specialize (Hlen2 Hr1).
-    specialize (IH (acc ++ [t]) s2 lo (ws_ok _ _ Hs2) (wstep_live _ _ Hs2)).
     assert (H12 : wstep s s2) by (eapply wstep_trans; eauto).
-    destruct (pop_description_loop f (acc ++ [t]) s2) as [d s'|t' s'|p|]; try (apply IH; auto).
-    + destruct IH as (A & B & C).
-      * eapply pos_le_trans; [exact Hlo|apply H12].
-      * intros _. destruct Hst' as (X & Y & Z). repeat split; auto. eapply pos_le_trans; [exact Z|apply Hs2].
-      * pose proof (ws_len _ _ Hs1). lia.
-      * split; [eapply wstep_trans; eauto|]. split; [exact B|].
-        intros _. pose proof (ws_len _ _ Hs1). pose proof (ws_len _ _ A). lia.
-    + eapply pos_le_trans; [exact Hlo|apply H12].
-    + intros _. destruct Hst' as (X & Y & Z). repeat split; auto. eapply pos_le_trans; [exact Z|apply Hs2].
-    + pose proof (ws_len _ _ Hs1). lia.
-    + eapply pos_le_trans; [exact Hlo|apply H12].
-    + intros _. destruct Hst' as (X & Y & Z). repeat split; auto. eapply pos_le_trans; [exact Z|apply Hs2].
-    + pose proof (ws_len _ _ Hs1). lia.
-    + eapply pos_le_trans; [exact Hlo|apply H12].
-    + intros _. destruct Hst' as (X & Y & Z). repeat split; auto. eapply pos_le_trans; [exact Z|apply Hs2].
-    + pose proof (ws_len _ _ Hs1). lia.
-  - split; [exact Hs1|]. split; [|exact Hlen]. cbn. rewrite ref_end_snoc, Hte.
+    assert (P1 : pos_le lo (hw s2)) by (eapply pos_le_trans; [exact Hlo|apply H12]).
+    assert (P2 : acc ++ [t] <> [] -> pos_le lo (ref_start (acc ++ [t])) /\ valid_pos inp (ref_start (acc ++ [t])) /\
+                                      pos_le (ref_start (acc ++ [t])) (hw s2)).
+    { intros _. destruct Hst' as (X & Y & Z). repeat split; auto. eapply pos_le_trans; [exact Z|apply Hs2]. }
+    assert (P3 : Forall (tok_in lo (hw s2)) (acc ++ [t])) by (eapply toks_in_weaken; [apply Hs2|exact Hacc1]).
+    assert (P4 : (length (wrest s2) < f)%nat) by (pose proof (ws_len _ _ Hs1); lia).
+    specialize (IH (acc ++ [t]) s2 lo (ws_ok _ _ Hs2) (wstep_live _ _ Hs2) P1 P2 P3 P4).
+    destruct (pop_description_loop f (acc ++ [t]) s2) as [d s'|t' wetq s'|p|]; try exact IH.
+    destruct IH as (A & B & Bt & C).
+    split; [eapply wstep_trans; eauto|]. split; [exact B|]. split; [exact Bt|].
+    intros _. pose proof (ws_len _ _ Hs1). pose proof (ws_len _ _ A). lia.
+  - split; [exact Hs1|]. split; [|split; [exact Hacc1|exact Hlen]]. cbn. rewrite ref_end_snoc, Hte.
     destruct Hst' as (X & Y & Z). destruct (ws_ok _ _ Hs1) as (V & _).
     repeat split; auto using pos_le_refl.
 Qed.
 
-Lemma pop_description_spec s : wst_ok s -> wlive s ->
-  wres_ok s (fun d s' => range_ok (hw s) (hw s') (dsstart d) (dsend d)) (pop_description s).
+Lemma pop_description_spec s k : wst_ok s -> wlive s ->
+  wres_ok s (fun d s' => nodes_ok (hw s) (hw s') (desc_nodes k d)) (pop_description s).
 Proof.
   intros Hok Hl. unfold pop_description.
   pose proof (pop_description_loop_spec (S (length (wrest s))) [] s (hw s) Hok Hl (pos_le_refl _)) as H.
   assert (Hnil : @nil token <> [] -> pos_le (hw s) (ref_start []) /\ valid_pos inp (ref_start []) /\ pos_le (ref_start []) (hw s)).
   { intros Hne. exfalso. apply Hne. reflexivity. }
-  specialize (H Hnil ltac:(lia)).
-  destruct (pop_description_loop (S (length (wrest s))) [] s) as [d s'|t s'|p|]; cbn; auto; contradiction.
+  specialize (H Hnil (Forall_nil _) ltac:(lia)).
+  destruct (pop_description_loop (S (length (wrest s))) [] s) as [d s'|t wet s'|p|]; cbn; auto; try contradiction.
+  destruct H as (A & B & Bt & C). split; [exact A|]. split; [|exact C].
+  unfold desc_nodes. constructor; [exact B|]. apply Forall_forall. intros n Hn. apply in_map_iff in Hn.
+  destruct Hn as (t & <- & Ht). rewrite Forall_forall in Bt. apply (Bt t Ht).
 Qed.
 
 (* ---- popTag ------------------------------------------------------------------------ *)
 Definition tag_res (s : wstate) (r : wres tag) : Prop :=
   wres_ok s (fun t s' => nodes_ok (hw s) (hw s') (tag_nodes t)) r.
+
+(* a tag without its mark token *)
+Definition tag_core (t : tag) : list pnode :=
+  (8%N, tgstart t, tgend t) :: match tbody t with TagRef r => ref_nodes r | TagVal v => value_nodes v end.
+Lemma tag_nodes_of_core lo hi t : nodes_ok lo hi (tag_core t) -> nodes_ok lo hi (mark_nodes t) -> nodes_ok lo hi (tag_nodes t).
+Proof.
+  unfold tag_core, tag_nodes. intros H Hm. inversion H as [|x l Hx Hl']; subst.
+  constructor; [exact Hx|]. apply Forall_app. split; assumption.
+Qed.
 
 Lemma after_mark_spec s0 s mk mt : wstep s0 s \/ (s0 = s /\ wst_ok s /\ wlive s) ->
   let r := match next_type s with
@@ -441,12 +454,12 @@ Lemma after_mark_spec s0 s mk mt : wstep s0 s \/ (s0 = s /\ wst_ok s /\ wlive s)
       wbind (pop_reference s) (fun r s1 => WOk (mkTag mk mt (TagRef r) (ref_start r) (ref_end r)) s1)
     | STRING =>
       wbind (pop_value_top s) (fun v s1 => WOk (mkTag mk mt (TagVal v) (value_start v) (value_end v)) s1)
-    | _ => wbind (pop_token s) (fun t s1 => WErr t s1)
+    | _ => wbind (pop_token s) (fun t s1 => WErr t (Expected exp_tag) s1)
     end in
   match r with
-  | WOk t s' => wstep s s' /\ nodes_ok (hw s) (hw s') (tag_nodes t) /\
+  | WOk t s' => wstep s s' /\ nodes_ok (hw s) (hw s') (tag_core t) /\ tmark_tok t = mt /\
                 (wrest s <> [] -> (length (wrest s') < length (wrest s))%nat)
-  | WErr t s' => wstep s s' /\ tok_in (hw s) (hw s') t
+  | WErr t _ s' => wstep s s' /\ tok_in (hw s) (hw s') t
   | _ => False
   end.
 Proof.
@@ -456,28 +469,41 @@ Proof.
   cbv zeta.
   assert (Href : next_type s = IDENT \/ next_type s = BOOL ->
     match wbind (pop_reference s) (fun r s1 => WOk (mkTag mk mt (TagRef r) (ref_start r) (ref_end r)) s1) with
-    | WOk t s' => wstep s s' /\ nodes_ok (hw s) (hw s') (tag_nodes t) /\
+    | WOk t s' => wstep s s' /\ nodes_ok (hw s) (hw s') (tag_core t) /\ tmark_tok t = mt /\
                   (wrest s <> [] -> (length (wrest s') < length (wrest s))%nat)
-    | WErr t s' => wstep s s' /\ tok_in (hw s) (hw s') t
+    | WErr t _ s' => wstep s s' /\ tok_in (hw s) (hw s') t
     | _ => False
     end).
   { intros Hn. pose proof (pop_reference_spec s Hok Hl Hn) as H.
-    destruct (pop_reference s) as [r s1|t s1|p|]; cbn in *; auto.
-    destruct H as (A & (B & C & D) & F). split; [exact A|]. split; [|exact F].
-    unfold tag_nodes. cbn. inversion C as [|x l Hx Hl']; subst. constructor; [exact Hx|exact C]. }
-  assert (Hdef : match wbind (pop_token s) (fun t s1 => WErr (A:=tag) t s1) with
-    | WOk t s' => wstep s s' /\ nodes_ok (hw s) (hw s') (tag_nodes t) /\
+    destruct (pop_reference s) as [r s1|t wet s1|p|]; cbn in *; auto.
+    destruct H as (A & (B & C & D) & F). split; [exact A|]. split; [|split; [reflexivity|exact F]].
+    unfold tag_core. cbn. inversion C as [|x l Hx Hl']; subst. constructor; [exact Hx|exact C]. }
+  assert (Hdef : match wbind (pop_token s) (fun t s1 => WErr (A:=tag) t (Expected exp_tag) s1) with
+    | WOk t s' => wstep s s' /\ nodes_ok (hw s) (hw s') (tag_core t) /\ tmark_tok t = mt /\
                   (wrest s <> [] -> (length (wrest s') < length (wrest s))%nat)
-    | WErr t s' => wstep s s' /\ tok_in (hw s) (hw s') t
+    | WErr t _ s' => wstep s s' /\ tok_in (hw s) (hw s') t
     | _ => False
     end).
   { destruct (pop_token_spec s Hok Hl) as (t & s1 & E & Hst & Hin & Hty & Hlen & Hte).
     rewrite E. cbn. split; assumption. }
   destruct (next_type s) eqn:En; try exact Hdef; try (apply Href; auto).
   pose proof (pop_value_top_spec s Hok Hl) as H. unfold value_res in H.
-  destruct (pop_value_top s) as [v s1|t s1|p|]; cbn in *; auto.
-  destruct H as (A & B & C). split; [exact A|]. split; [|exact C].
-  unfold tag_nodes. cbn. constructor; [|exact B]. apply value_nodes_range, B.
+  destruct (pop_value_top s) as [v s1|t wet s1|p|]; cbn in *; auto.
+  destruct H as (A & B & C). split; [exact A|]. split; [|split; [reflexivity|exact C]].
+  unfold tag_core. cbn. constructor; [|exact B]. apply value_nodes_range, B.
+Qed.
+
+Lemma no_mark_lift s (r : wres tag) :
+  match r with
+  | WOk t s' => wstep s s' /\ nodes_ok (hw s) (hw s') (tag_core t) /\ tmark_tok t = None /\
+                (wrest s <> [] -> (length (wrest s') < length (wrest s))%nat)
+  | WErr t _ s' => wstep s s' /\ tok_in (hw s) (hw s') t
+  | _ => False
+  end -> wres_ok s (fun t s' => nodes_ok (hw s) (hw s') (tag_nodes t)) r.
+Proof.
+  destruct r as [tg s2|t2 wet2 s2|p|]; cbn; auto.
+  intros (A & B & Hmt & C). split; [exact A|]. split; [|exact C].
+  apply tag_nodes_of_core; [exact B|]. unfold mark_nodes. rewrite Hmt. constructor.
 Qed.
 
 Lemma pop_tag_spec s : wst_ok s -> wlive s -> tag_res s (pop_tag s).
@@ -491,20 +517,23 @@ Proof.
           wbind (pop_reference s1) (fun r s2 => WOk (mkTag mk (Some t) (TagRef r) (ref_start r) (ref_end r)) s2)
         | STRING =>
           wbind (pop_value_top s1) (fun v s2 => WOk (mkTag mk (Some t) (TagVal v) (value_start v) (value_end v)) s2)
-        | _ => wbind (pop_token s1) (fun t s2 => WErr t s2)
+        | _ => wbind (pop_token s1) (fun t s2 => WErr t (Expected exp_tag) s2)
         end))).
   { intros mk. destruct (pop_token_spec s Hok Hl) as (t & s1 & E & Hst & Hin & Hty & Hlen & Hte).
     rewrite E. cbn [wbind].
     pose proof (after_mark_spec s s1 mk (Some t) (or_introl Hst)) as H. cbv zeta in H.
-    match goal with |- wres_ok _ _ ?r => destruct r as [tg s2|t2 s2|p|] end; cbn in *; auto.
-    - destruct H as (A & B & C). split; [eapply wstep_trans; eauto|]. split.
-      + eapply nodes_weaken; [apply Hst|apply pos_le_refl|exact B].
+    match goal with |- wres_ok _ _ ?r => destruct r as [tg s2|t2 wet2 s2|p|] end; cbn in *; auto.
+    - destruct H as (A & B & Hmt & C). split; [eapply wstep_trans; eauto|]. split.
+      + apply tag_nodes_of_core.
+        * eapply nodes_weaken; [apply Hst|apply pos_le_refl|exact B].
+        * unfold mark_nodes. rewrite Hmt. constructor; [|constructor].
+          eapply range_weaken; [apply pos_le_refl|apply A|exact Hin].
       + intros Hr. specialize (Hlen Hr). pose proof (ws_len _ _ A). lia.
     - destruct H as (A & B). split; [eapply wstep_trans; eauto|].
       eapply range_weaken; [apply Hst|apply pos_le_refl|exact B]. }
   destruct (next_type s) eqn:En; try apply Hmark;
     pose proof (after_mark_spec s s MarkNone None (or_intror (conj eq_refl (conj Hok Hl)))) as H; cbv zeta in H;
-    rewrite En in H; exact H.
+    rewrite En in H; apply no_mark_lift; exact H.
 Qed.
 
 (* ---- endStatement ------------------------------------------------------------------ *)
@@ -534,7 +563,7 @@ Definition frag_res (lo : pos) (s : wstate) (r : wres fragment) : Prop :=
   match r with
   | WOk f s' => wstep s s' /\ nodes_ok lo (hw s') (frag_nodes f) /\
                 (wrest s <> [] -> (length (wrest s') < length (wrest s))%nat)
-  | WErr t s' => wstep s s' /\ tok_in (hw s) (hw s') t
+  | WErr t _ s' => wstep s s' /\ tok_in (hw s) (hw s') t
   | _ => False
   end.
 
@@ -550,10 +579,10 @@ Proof.
   rewrite E. cbn [wbind].
   destruct (negb (tt_eqb (ty t) ASSIGN)); [cbn; split; assumption|].
   pose proof (pop_value_top_spec s1 (ws_ok _ _ Hst) (wstep_live _ _ Hst)) as Hv. unfold value_res in Hv.
-  destruct (pop_value_top s1) as [v s2|t2 s2|p|]; cbn [wbind]; cbn in Hv; auto.
+  destruct (pop_value_top s1) as [v s2|t2 wet2 s2|p|]; cbn [wbind]; cbn in Hv; auto.
   - destruct Hv as (H12 & Hvn & Hl2).
     pose proof (end_statement_spec s2 (ws_ok _ _ H12) (wstep_live _ _ H12)) as He.
-    destruct (end_statement s2) as [c s3|t3 s3|p|]; cbn [wbind]; cbn in He; auto.
+    destruct (end_statement s2) as [c s3|t3 wet3 s3|p|]; cbn [wbind]; cbn in He; auto.
     + destruct He as (H23 & Hcn & Hl3). cbn.
       assert (H03 : wstep s s3) by (eapply wstep_trans; [exact Hst|eapply wstep_trans; eauto]).
       split; [exact H03|]. split.
@@ -586,7 +615,7 @@ Lemma tags_loop_spec : forall fuel acc s lo,
   | WOk ts s' => (s' = s \/ wstep s s') /\ wst_ok s' /\ wlive s' /\ pos_le (hw s) (hw s') /\
                  (length (wrest s') <= length (wrest s))%nat /\
                  nodes_ok lo (hw s') (flat_map tag_nodes ts)
-  | WErr t s' => wstep s s' /\ tok_in (hw s) (hw s') t
+  | WErr t _ s' => wstep s s' /\ tok_in (hw s) (hw s') t
   | _ => False
   end.
 Proof.
@@ -594,10 +623,10 @@ Proof.
   cbn [tags_loop]. destruct (can_start_tag (next_type s)) eqn:Ec.
   - assert (Hr : wrest s <> []). { apply next_type_not_eof; auto. apply can_start_tag_not_eof, Ec. }
     pose proof (pop_tag_spec s Hok Hl) as Ht. unfold tag_res in Ht.
-    destruct (pop_tag s) as [t s1|t s1|p|]; cbn [wbind]; cbn in Ht; auto.
+    destruct (pop_tag s) as [t s1|t wet s1|p|]; cbn [wbind]; cbn in Ht; auto.
     destruct Ht as (H01 & Hn & Hlen). specialize (Hlen Hr).
     specialize (IH (acc ++ [t]) s1 lo (ws_ok _ _ H01) (wstep_live _ _ H01)).
-    destruct (tags_loop f (acc ++ [t]) s1) as [ts s'|t' s'|p|]; try (apply IH).
+    destruct (tags_loop f (acc ++ [t]) s1) as [ts s'|t' wetq s'|p|]; try (apply IH).
     + destruct IH as (A & B & C & D & E & F).
       * eapply pos_le_trans; [exact Hlo|apply H01].
       * rewrite flat_map_app. apply nodes_app.
@@ -633,7 +662,7 @@ Lemma quals_loop_spec : forall fuel acc s lo,
   | WOk ts s' => (s' = s \/ wstep s s') /\ wst_ok s' /\ wlive s' /\ pos_le (hw s) (hw s') /\
                  (length (wrest s') <= length (wrest s))%nat /\
                  nodes_ok lo (hw s') (flat_map tag_nodes ts)
-  | WErr t s' => wstep s s' /\ tok_in (hw s) (hw s') t
+  | WErr t _ s' => wstep s s' /\ tok_in (hw s) (hw s') t
   | _ => False
   end.
 Proof.
@@ -644,7 +673,7 @@ Proof.
     destruct (pop_token_spec s Hok Hl) as (t0 & s0 & E & Hst & Hin & Hty & Hlen0 & Hte).
     rewrite E. cbn [wbind]. specialize (Hlen0 Hr).
     pose proof (pop_tag_spec s0 (ws_ok _ _ Hst) (wstep_live _ _ Hst)) as Ht. unfold tag_res in Ht.
-    destruct (pop_tag s0) as [t s1|t s1|p|]; cbn [wbind]; cbn in Ht; auto.
+    destruct (pop_tag s0) as [t s1|t wet s1|p|]; cbn [wbind]; cbn in Ht; auto.
     + destruct Ht as (H01' & Hn & Hlen).
       assert (H01 : wstep s s1) by (eapply wstep_trans; eauto).
       assert (Hacc' : nodes_ok lo (hw s1) (flat_map tag_nodes (acc ++ [t]))).
@@ -655,7 +684,7 @@ Proof.
       specialize (IH (acc ++ [t]) s1 lo (ws_ok _ _ H01) (wstep_live _ _ H01)).
       assert (Hlo1 : pos_le lo (hw s1)) by (eapply pos_le_trans; [exact Hlo|apply H01]).
       assert (Hf1 : (length (wrest s1) < f)%nat) by (pose proof (ws_len _ _ H01'); lia).
-      destruct (quals_loop f (acc ++ [t]) s1) as [ts s'|t' s'|p|]; try (apply IH; auto).
+      destruct (quals_loop f (acc ++ [t]) s1) as [ts s'|t' wetq s'|p|]; try (apply IH; auto).
       * destruct (IH Hlo1 Hacc' Hf1) as (A & B & C & D & E' & F).
         split; [right; destruct A as [->|A]; [exact H01|eapply wstep_trans; eauto]|].
         split; [exact B|]. split; [exact C|]. split; [eapply pos_le_trans; [apply H01|exact D]|]. split; [pose proof (ws_len _ _ H01); lia|exact F].
@@ -670,7 +699,7 @@ Qed.
 Lemma header_nodes_ok lo hi r tags quals d c st en op :
   nodes_ok lo hi (ref_nodes r) -> nodes_ok lo hi (flat_map tag_nodes tags) ->
   nodes_ok lo hi (flat_map tag_nodes quals) ->
-  nodes_ok lo hi (match d with Some d => [(12%N, dsstart d, dsend d)] | None => [] end) ->
+  nodes_ok lo hi (match d with Some d => desc_nodes 12 d | None => [] end) ->
   nodes_ok lo hi (comment_nodes c) -> range_ok lo hi st en ->
   nodes_ok lo hi (header_nodes (mkHeader r tags quals d op st en c)).
 Proof.
@@ -690,13 +719,13 @@ Lemma walk_statement_spec s :
 Proof.
   intros Hok Hl Hn. unfold walk_statement.
   pose proof (pop_reference_spec s Hok Hl Hn) as Href.
-  destruct (pop_reference s) as [r s1|t s1|p|]; cbn [wbind]; cbn in Href; auto.
+  destruct (pop_reference s) as [r s1|t wet s1|p|]; cbn [wbind]; cbn in Href; auto.
   destruct Href as (H01 & (Hrne & Hrn & Hre) & Hlen1).
   assert (Hr0 : wrest s <> []).
   { apply next_type_not_eof; auto. destruct Hn as [-> | ->]; discriminate. }
   specialize (Hlen1 Hr0).
   assert (Hcompose : forall r0, frag_res (hw s) s1 r0 -> frag_res (hw s) s r0).
-  { intros [f s'|t s'|p|]; cbn; auto.
+  { intros [f s'|t wet s'|p|]; cbn; auto.
     - intros (A & B & C). split; [eapply wstep_trans; eauto|]. split; [exact B|].
       intros _. pose proof (ws_len _ _ A). lia.
     - intros (A & B). split; [eapply wstep_trans; eauto|].
@@ -712,7 +741,7 @@ Proof.
       rewrite E3. cbn. split; [eapply wstep_trans; eauto|].
       eapply range_weaken; [apply H02|apply pos_le_refl|exact Hin3].
     - pose proof (walk_value_assign_spec r true s2 (hw s) (ws_ok _ _ H12) (wstep_live _ _ H12)) as Hw.
-      destruct (walk_value_assign r true s2) as [f s'|t' s'|p|]; cbn in *.
+      destruct (walk_value_assign r true s2) as [f s'|t' wetq s'|p|]; cbn in *.
       + destruct Hw as (A & B & C); [apply H02|eapply nodes_weaken; [apply pos_le_refl|apply H12|exact Hrn]|].
         split; [eapply wstep_trans; eauto|]. split; [exact B|].
         intros _. pose proof (ws_len _ _ A). pose proof (ws_len _ _ H12). lia.
@@ -722,14 +751,14 @@ Proof.
       + apply Hw; [apply H02|eapply nodes_weaken; [apply pos_le_refl|apply H12|exact Hrn]]. }
   (* a block header *)
   pose proof (tags_loop_spec (S (length (wrest s1))) [] s1 (hw s) (ws_ok _ _ H01) (wstep_live _ _ H01)) as Ht.
-  destruct (tags_loop (S (length (wrest s1))) [] s1) as [tags s2|t s2|p|]; cbn [wbind];
+  destruct (tags_loop (S (length (wrest s1))) [] s1) as [tags s2|t wet s2|p|]; cbn [wbind];
     try (apply Ht; [apply H01|constructor|lia]).
   2:{ destruct Ht as (A & B); [apply H01|constructor|lia|]. cbn.
       split; [eapply wstep_trans; eauto|]. eapply range_weaken; [apply H01|apply pos_le_refl|exact B]. }
   destruct Ht as (A2 & Hok2 & Hl2 & Hhw2 & Hlen2 & Htn); [apply H01|constructor|lia|].
   assert (H02 : wstep s s2) by (eapply step_or_same; eauto).
   pose proof (quals_loop_spec (S (length (wrest s2))) [] s2 (hw s) Hok2 Hl2) as Hq.
-  destruct (quals_loop (S (length (wrest s2))) [] s2) as [quals s3|t s3|p|]; cbn [wbind];
+  destruct (quals_loop (S (length (wrest s2))) [] s2) as [quals s3|t wet s3|p|]; cbn [wbind];
     try (apply Hq; [apply H02|constructor|lia]).
   2:{ destruct Hq as (A & B); [apply H02|constructor|lia|]. cbn.
       split; [eapply wstep_trans; eauto|]. eapply range_weaken; [apply H02|apply pos_le_refl|exact B]. }
@@ -742,7 +771,7 @@ Proof.
     eapply pos_le_trans; [exact Hhw2|exact Hhw3]. }
   (* assembling a header whose last state is sN *)
   assert (Hhdr : forall sN d c en op, wstep s sN -> pos_le (hw s3) (hw sN) ->
-            nodes_ok (hw s) (hw sN) (match d with Some d => [(12%N, dsstart d, dsend d)] | None => [] end) ->
+            nodes_ok (hw s) (hw sN) (match d with Some d => desc_nodes 12 d | None => [] end) ->
             nodes_ok (hw s) (hw sN) (comment_nodes c) ->
             valid_pos inp en -> pos_le (hw s3) en -> pos_le en (hw sN) ->
             nodes_ok (hw s) (hw sN) (frag_nodes (FHeader (mkHeader r tags quals d op (ref_start r) en c)))).
@@ -755,7 +784,7 @@ Proof.
     - repeat split; auto. eapply pos_le_trans; [exact Hstart3|exact He1]. }
   destruct (pop_token_spec s3 Hok3 Hl3) as (t4 & s4 & E4 & H34 & Hin4 & Hty4 & Hlen4 & Hte4).
   assert (H04 : wstep s s4) by (eapply wstep_trans; [exact H03|exact H34]).
-  assert (Hdefault : frag_res (hw s) s (wbind (pop_token s3) (fun t s4 => WErr t s4))).
+  assert (Hdefault : frag_res (hw s) s (wbind (pop_token s3) (fun t s4 => WErr t (Expected exp_header) s4))).
   { rewrite E4. cbn. split; [exact H04|]. eapply range_weaken; [apply H03|apply pos_le_refl|exact Hin4]. }
   destruct (next_type s3) eqn:En3; try exact Hdefault.
   - (* EOF *) cbn. split; [exact H03|]. split; [|intros _; exact Hlt3].
@@ -766,7 +795,7 @@ Proof.
       [constructor|constructor|apply Hok3|apply pos_le_refl|apply pos_le_refl].
   - (* COMMENT *)
     pose proof (end_statement_spec s3 Hok3 Hl3) as He.
-    destruct (end_statement s3) as [c s5|t5 s5|p|]; cbn [wbind]; cbn in He; auto.
+    destruct (end_statement s3) as [c s5|t5 wet5 s5|p|]; cbn [wbind]; cbn in He; auto.
     + destruct He as (H35 & Hcn & Hl5). cbn.
       assert (H05 : wstep s s5) by (eapply wstep_trans; [exact H03|exact H35]).
       split; [exact H05|]. split; [|intros _; pose proof (ws_len _ _ H35); lia].
@@ -779,11 +808,13 @@ Proof.
     rewrite E4. cbn [wbind]. cbn. split; [exact H04|]. split; [|intros _; pose proof (ws_len _ _ H34); lia].
     apply (Hhdr s4 (Some (mkDescr [t4] (lit t4) (tstart t4) (tend t4))) None (hw s4) false H04 (ws_hw _ _ H34));
       [|constructor|apply H34|apply H34|apply pos_le_refl].
-    constructor; [|constructor]. cbn. eapply range_weaken; [apply H03|apply pos_le_refl|exact Hin4].
+    unfold desc_nodes. cbn [dsstart dsend dtoks map].
+    assert (Hr4 : range_ok (hw s) (hw s4) (tstart t4) (tend t4)) by (eapply range_weaken; [apply H03|apply pos_le_refl|exact Hin4]).
+    constructor; [exact Hr4|]. constructor; [exact Hr4|constructor].
   - (* LBRACE *)
     rewrite E4. cbn [wbind].
     pose proof (end_statement_spec s4 (ws_ok _ _ H34) (wstep_live _ _ H34)) as He.
-    destruct (end_statement s4) as [c s5|t5 s5|p|]; cbn [wbind]; cbn in He; auto.
+    destruct (end_statement s4) as [c s5|t5 wet5 s5|p|]; cbn [wbind]; cbn in He; auto.
     + destruct He as (H45 & Hcn & Hl5). cbn.
       assert (H05 : wstep s s5) by (eapply wstep_trans; [exact H04|exact H45]).
       split; [exact H05|]. split; [|intros _; pose proof (ws_len _ _ H34); pose proof (ws_len _ _ H45); lia].
@@ -808,20 +839,19 @@ Proof.
                     (wbind (pop_token s) (fun _ s1 => WOk None s1))).
   { rewrite E. cbn. split; [exact Hst|]. split; [constructor|exact Hlen]. }
   assert (Herr : wres_ok s (fun fo s' => nodes_ok (hw s) (hw s') (ofrag_nodes fo))
-                    (wbind (pop_token s) (fun t s1 => WErr t s1))).
+                    (wbind (pop_token s) (fun t s1 => WErr t (Expected exp_fragment) s1))).
   { rewrite E. cbn. split; assumption. }
   assert (Hstmt : next_type s = IDENT \/ next_type s = BOOL ->
             wres_ok s (fun fo s' => nodes_ok (hw s) (hw s') (ofrag_nodes fo))
                     (wbind (walk_statement s) (fun f s1 => WOk (Some f) s1))).
   { intros Hn. pose proof (walk_statement_spec s Hok Hl Hn) as H.
-    destruct (walk_statement s) as [f s'|t' s'|p|]; cbn in *; auto. }
+    destruct (walk_statement s) as [f s'|t' wetq s'|p|]; cbn in *; auto. }
   destruct (next_type s) eqn:En; try exact Hnone; try exact Herr; try (apply Hstmt; auto).
   - (* COMMENT *) rewrite E. cbn. split; [exact Hst|]. split; [|exact Hlen]. constructor; [exact Hin|constructor].
   - (* BLOCK_COMMENT *) rewrite E. cbn. split; [exact Hst|]. split; [|exact Hlen]. constructor; [exact Hin|constructor].
   - (* DESCRIPTION *)
-    pose proof (pop_description_spec s Hok Hl) as H.
-    destruct (pop_description s) as [d s'|t' s'|p|]; cbn in *; auto.
-    destruct H as (A & B & C). split; [exact A|]. split; [|exact C]. constructor; [exact B|constructor].
+    pose proof (pop_description_spec s 3 Hok Hl) as H.
+    destruct (pop_description s) as [d s'|t' wetq s'|p|]; cbn [wbind wres_ok ofrag_nodes frag_nodes] in *; auto.
   - (* RBRACE *) rewrite E. cbn. split; [exact Hst|]. split; [|exact Hlen]. constructor; [exact Hin|constructor].
 Qed.
 
@@ -855,7 +885,7 @@ Proof.
   split; [eapply pos_le_trans; eauto|exact C].
 Qed.
 
-Lemma tok_in_diag lo hi t : tok_in lo hi t -> diag_wf inp (diag_of_tok t).
+Lemma tok_in_diag lo hi t e : tok_in lo hi t -> diag_wf inp (diag_of_tok t e).
 Proof. intros (A & B & C & D & E). repeat split; assumption. Qed.
 
 Lemma walk_fragments_loop_spec ff : forall fuel s,
@@ -872,7 +902,7 @@ Proof.
   assert (Hr : wrest s <> []) by (apply next_type_not_eof; auto).
   assert (Hl : wlive s) by (left; exact Hr).
   pose proof (next_fragment_spec s Hok Hl) as Hn.
-  destruct (next_fragment s) as [fo s1|t s1|p|]; cbn in Hn; auto.
+  destruct (next_fragment s) as [fo s1|t wet s1|p|]; cbn in Hn; auto.
   - destruct Hn as (H01 & Hnodes & Hlen). specialize (Hlen Hr).
     specialize (IH s1 (ws_ok _ _ H01) ltac:(lia)).
     destruct (walk_fragments_loop f ff s1) as [fs ds|p|]; auto.
@@ -1082,12 +1112,12 @@ Lemma walk_fragments_loop_modes : forall fuel s,
 Proof.
   induction fuel as [|f IH]; intros s; cbn [walk_fragments_loop]; [exact I|].
   destruct (tt_eqb (next_type s) EOF); [auto|].
-  destruct (next_fragment s) as [fo s1|t s1|p|]; auto.
+  destruct (next_fragment s) as [fo s1|t wet s1|p|]; auto.
   - specialize (IH s1).
     destruct (walk_fragments_loop f true s1) as [f1 d1|p1|]; auto;
     destruct (walk_fragments_loop f false s1) as [f2 d2|p2|]; auto.
     destruct IH as [A B]. split; [exact A|]. intros H. rewrite (B H). reflexivity.
-  - destruct (skip_to_eol (S (length (wrest s1))) s1) as [u s2|t2 s2|p|]; auto.
+  - destruct (skip_to_eol (S (length (wrest s1))) s1) as [u s2|t2 wet2 s2|p|]; auto.
     destruct (walk_fragments_loop f false s2) as [f2 d2|p2|]; auto.
     split; [reflexivity|discriminate].
 Qed.
